@@ -4,6 +4,7 @@ patch.diff, the demonstration (demo.diff or demo/), meta.json extended by what t
 the confirmation (tools/confirm_slot.sh) and the result of the property's check in the isolated lab."""
 import json, os, re, shutil, glob, sys
 SRC = "/tmp/mutants"; DST = "/verif/seeded"
+WAVES = set(sys.argv[1:])   # e.g. `archive_all.py w3`: only that wave; no argument: every wave found under /tmp/mutants
 def results(paths):
     res = {}
     for p in paths:
@@ -11,9 +12,10 @@ def results(paths):
             m = re.match(r"\[(\w+)/mutant(\d+)\] RESULT (\w+) \S+ exit=(\d+) violations=(\d+) :: (.*)", l)
             if m: res[(m.group(1), int(m.group(2)), m.group(3))] = (int(m.group(4)), int(m.group(5)), m.group(6).strip())
     return res
-lab = results(sum([sorted(glob.glob(SRC + "/queue%s?.txt.log" % q)) for q in ["", "B", "C", "D", "E", "F", "G"]], []))
+lab = results(sum([sorted(glob.glob(SRC + "/queue%s?.txt.log" % q)) for q in ["", "B", "C", "D", "E", "F", "G"]], []) + sorted(glob.glob("/tmp/q/w3b_?.log")))
+lab_first = results(sorted(glob.glob("/tmp/q/w3_?.log")))   # wave 3: the run BEFORE the checks were strengthened
 conf = {}
-for p in glob.glob(SRC + "/confirm*_*.log") + glob.glob(SRC + "/confirm_*.log"):
+for p in glob.glob(SRC + "/confirm*_*.log") + glob.glob(SRC + "/confirm_*.log") + glob.glob("/tmp/q/w3_confirm.log"):
     for l in open(p):
         m = re.match(r"RESULT (\w+) (\S+) suite=\[([^\]]*)\] demo_with=(\d+) demo_without=(\d+)", l)
         if m: conf[m.group(2)] = (m.group(3), int(m.group(4)), int(m.group(5)))
@@ -23,16 +25,18 @@ def slug(s):
     w = [x for x in w if x not in stop][:6]
     return "-".join(w)[:60] or "change"
 n = 0
-for d in sorted(glob.glob(SRC + "/C??/mutant?")) + sorted(glob.glob(SRC + "/C??b/mutant?")):
-    src_pid = d.split("/")[-2]; pid = src_pid[:3]; wave2 = src_pid.endswith("b"); k = int(d[-1])
+for d in sorted(glob.glob(SRC + "/C??/mutant?")) + sorted(glob.glob(SRC + "/C??b/mutant?")) + sorted(glob.glob(SRC + "/C??c/mutant?")):
+    src_pid = d.split("/")[-2]; pid = src_pid[:3]; k = int(d[-1])
+    wave = {"b": "w2", "c": "w3"}.get(src_pid[3:], "")
+    if WAVES and wave not in WAVES: continue
     if not os.path.exists(d + "/patch.diff") or not os.path.exists(d + "/meta.json"): continue
     c = conf.get(d)
     if pid != "C19" and (c is None or not c[0].startswith("77 passed 0 failed") or c[1] == 0 or c[2] != 0):
         print("skip (not confirmed):", d, c); continue
     meta = json.load(open(d + "/meta.json"))
-    name = "%sm%d-%s" % ("w2" if wave2 else "", k, slug(str(meta.get("summary", ""))))
+    name = "%sm%d-%s" % (wave, k, slug(str(meta.get("summary", meta.get("title", meta.get("description", ""))))))
     dst = os.path.join(DST, pid, name)
-    for old in glob.glob(os.path.join(DST, pid, "%sm%d-*" % ("w2" if wave2 else "", k))): shutil.rmtree(old)
+    for old in glob.glob(os.path.join(DST, pid, "%sm%d-*" % (wave, k))): shutil.rmtree(old)
     os.makedirs(dst, exist_ok=True)
     shutil.copy(d + "/patch.diff", dst)
     if os.path.exists(d + "/demo.diff"): shutil.copy(d + "/demo.diff", dst)
@@ -40,6 +44,8 @@ for d in sorted(glob.glob(SRC + "/C??/mutant?")) + sorted(glob.glob(SRC + "/C??b
         shutil.copytree(d + "/demo", dst + "/demo", dirs_exist_ok=True, ignore=shutil.ignore_patterns("target", "Cargo.lock"))
     checks = {c_: {"exit": r[0], "violation_lines": r[1], "first_line": r[2][:300]} for (p_, k_, c_), r in lab.items() if p_ == src_pid and k_ == k}
     meta["property"] = pid
+    first = {c_: {"exit": r[0], "violation_lines": r[1], "first_line": r[2][:300]} for (p_, k_, c_), r in lab_first.items() if p_ == src_pid and k_ == k}
+    if first: meta["checks_in_lab_before_strengthening"] = first
     meta["confirmed_by_coordinator"] = {
         "how": "tools/confirm_slot.sh in a scratch worktree of /repo: patch applied, `cargo test --workspace --no-fail-fast --offline` (%s), demonstration with the patch (exit %s = fails) and without it (exit %s = passes)" % (c if c else ("77 passed 0 failed (agent log)", "101", "0")),
         "checks_in_lab": checks,
